@@ -22,7 +22,8 @@ RULE = ("one run = 1-3 component groups (disjoint, or overlapping but different)
         "distribute_power completing as drawn (synchronously, after one iteration, after a delay, raising); "
         "non-trivial = at least one request arrived while one of the same group was in flight; distinct = "
         "distinct abstract event sequence (kind, group) of sends/enters/exits")
-EXPECT_PROBES = ["arrival_while_in_flight", "send_at_completion", "sync_completion", "equal_valued_request", "actor_stop_start", "overlapping_groups"]
+EXPECT_PROBES = ["arrival_while_in_flight", "send_at_completion", "sync_completion", "equal_valued_request", "actor_stop_start", "overlapping_groups",
+                 "equal_set_other_iteration_order"]
 QUICK_RUNS = 6000
 THOROUGH_RUNS = 400_000
 
@@ -76,7 +77,9 @@ class ProbeManager:
 class State:
     def __init__(self, sim: Sim, ngroups: int) -> None:
         self.sim = sim
-        self.groups = [frozenset({10 * (g + 1) + 1, 10 * (g + 1) + 2}) for g in range(ngroups)]
+        # ids that collide in a small hash table (all = 0 mod 8): equal sets built in another order then iterate in
+        # another order, which must not make them another group
+        self.groups = [frozenset({16 * g + 8, 16 * g + 16}) for g in range(ngroups)]
         if ngroups > 1 and sim.ch.chance("overlapping_groups", 0.25):
             # different component sets that share a component are different groups (processed independently,
             # as the class documents); each of them still has to obey the property
@@ -221,7 +224,11 @@ def scenario(sim: Sim) -> None:
                 back = st.sent[g][-1 - ch.draw("which_earlier", min(3, len(st.sent[g])))]
                 power = st.power_of[back]
                 sim.probe("equal_valued_request")
-            req = Request(power=Power.from_watts(power), component_ids=st.groups[g], adjust_power=True)
+            ids: Any = st.groups[g]
+            if ch.chance("ids_built_in_other_order", 0.3):
+                ids = set(sorted(ids, reverse=True))        # equal set, other insertion (and iteration) order, other type
+                sim.probe("equal_set_other_iteration_order")
+            req = Request(power=Power.from_watts(power), component_ids=ids, adjust_power=True)
             st.idx_of[id(req)] = k
             st.keep.append(req)
             st.power_of[k] = power
